@@ -330,6 +330,8 @@ def _patom(a, depth=0):
         return f'not {pretty(a.args[0], depth + 1)}'
     if k in ('and', 'or'):
         return '(' + f' {k} '.join(pretty(x, depth + 1) for x in a.args) + ')'
+    if k in ('loopvar', 'after') and len(a.args) == 2 and (a.args[0], a.args[1]) in LOOPVAR_LABELS:
+        return f"{k}({LOOPVAR_LABELS[(a.args[0], a.args[1])]!r}, {a.args[1]!r})"
     return k + '(' + ', '.join(pretty(x, depth + 1) if isinstance(x, (Term, Atom)) else repr(x) for x in a.args) + ')'
 
 
@@ -473,6 +475,7 @@ def mk_cmp(op, a, b):
 
 
 NOTNONE = set()       # symbol names assumed not None
+LOOPVAR_LABELS = {}    # canonical loop-carried id -> readable local name (reports only)
 SYMKIND = {}          # symbol name -> 'callable' | 'array' | 'scalar' (input-form case analysis)
 
 
@@ -573,6 +576,9 @@ SYN = {
 }
 
 # heads whose semantics the normaliser knows (differences between such atoms are decisive)
+STR_METHODS = {'.startswith', '.endswith', '.strip', '.lstrip', '.rstrip', '.decode', '.encode', '.replace', '.split',
+               '.join', '.format', '.lower', '.upper', '.get', '.items', '.keys', '.values', '.index', '.count', '.find'}
+
 MODELLED = {
     'round', 'floor', 'ceil', 'trunc', 'abs', 'sqrt', 'min', 'max', 'minimum', 'maximum',
     'mean', 'sum', 'std', 'median', 'var', 'cos', 'sin', 'exp', 'log', 'log10', 'log2', 'sinc',
@@ -937,7 +943,7 @@ def canon(t):
     return subst(t, lambda a: None)
 
 
-def rename_loops(t):
+def rename_loops(t, kinds='LCT'):
     """Loop / try identifiers are line based (L46, C12:4:0, T128); rename them by rank so that a
     reference transcription with different line numbers compares equal."""
     import re
@@ -945,11 +951,12 @@ def rename_loops(t):
     for a in all_atoms(t).values():
         if a.kind in ('after', 'loopvar', 'idx', 'elem', 'key', 'exc', 'partial'):
             for x in a.args:
-                if isinstance(x, str) and re.match(r'^[LCT]\d', x):
+                if isinstance(x, str) and re.match(r'^[LCT]\d', x) and x[0] in kinds:
                     ids.add(x)
                 elif isinstance(x, str):
                     for m in re.findall(r"'([LCT]\d[\d:]*)'", x):
-                        ids.add(m)
+                        if m[0] in kinds:
+                            ids.add(m)
     if not ids:
         return t
 
@@ -1084,10 +1091,10 @@ def compare(a, b, max_conds=8):
     a, b = lift(a), lift(b)
     if a.key == b.key:
         return EQUAL, None
-    a, b = canon(a), canon(b)
+    a, b = rename_loops(canon(a), 'LT'), rename_loops(canon(b), 'LT')     # loops / try blocks: stable statement order
     if a.key == b.key:
         return EQUAL, None
-    if rename_loops(a).key == rename_loops(b).key:
+    if rename_loops(a, 'C').key == rename_loops(b, 'C').key:
         return EQUAL, None
     conds = {}
     conds.update(conditions(a))
@@ -1100,7 +1107,7 @@ def compare(a, b, max_conds=8):
     for mask in range(1 << len(keys)):
         asg = {k: bool(mask >> i & 1) for i, k in enumerate(keys)}
         xa, xb = (assume(a, asg), assume(b, asg)) if keys else (a, b)
-        xa, xb = rename_loops(xa), rename_loops(xb)     # ids of the loops/comprehensions that survive this case
+        xa, xb = rename_loops(xa, 'C'), rename_loops(xb, 'C')     # comprehensions that survive this case
         v, w = _compare_flat(xa, xb)
         if v != EQUAL:
             case = {pretty(conds[k]): asg[k] for k in keys}
@@ -1129,7 +1136,7 @@ def exposed_syms(t):
         if a.kind == 'sym':
             out.add(a.args[0])
             return
-        if a.kind == 'call' and a.args[0] not in MODELLED and a.args[0] not in PACKAGE_HEADS:
+        if a.kind == 'call' and a.args[0] not in MODELLED and a.args[0] not in PACKAGE_HEADS and a.args[0] not in STR_METHODS:
             return
         for x in a.args:
             walk_arg(x)
@@ -1155,18 +1162,32 @@ def _compare_flat(a, b):
     hidden = any(x.kind in ('after', 'loopvar', 'undef', 'partial') for x in list(aa.values()) + list(ab.values()))
     sha0 = {x.args[1][0].key for x in only_a if x.kind == 'call' and x.args[0] == 'shape' and x.args[1]}
     shb0 = {x.args[1][0].key for x in only_b if x.kind == 'call' and x.args[0] == 'shape' and x.args[1]}
-    if (sha0 or shb0) and sha0 != shb0:
-        return UNDECIDED, 'the two sides use the shapes of different arrays (shape algebra is not modelled)'
+    def _hidden_shape(x):
+        return x.kind == 'call' and x.args[0] == 'shape' and x.args[1] and \
+            any(y.kind in ('after', 'loopvar') for y in all_atoms(x.args[1][0]).values())
+    def _leaves(only):
+        keys = {x.key for x in only}
+        out = []
+        for x in only:
+            kids = all_atoms(Term.of(x))
+            if not any(k in keys for k in kids if k != x.key):
+                out.append(x)
+        return out
+    for side in (only_a, only_b):
+        lv = _leaves(side)
+        if lv and all(_hidden_shape(x) or (x.kind == 'sub' and x.args[0].single_atom() is not None
+                                           and _hidden_shape(x.args[0].single_atom())) for x in lv):
+            # one side differs from the other only by reading the shape of a loop-carried array; whether the
+            # other side's expression equals that shape is not modelled
+            return UNDECIDED, 'the sides differ only through the shape of a loop-carried array (not modelled)'
     if not hidden and ((ea - sb_all) or (eb - sa_all)):
         return DIFFERENT, 'depends on different inputs: ' + ', '.join(sorted((ea - sb_all) | (eb - sa_all)))
     # array-shape algebra is not modelled: shape(u)[k] against an expression over shape(v) is not decisive
     sha = {x.args[1][0].key for x in only_a if x.kind == 'call' and x.args[0] == 'shape' and x.args[1]}
     shb = {x.args[1][0].key for x in only_b if x.kind == 'call' and x.args[0] == 'shape' and x.args[1]}
-    if (sha or shb) and sha != shb:
-        return UNDECIDED, 'the two sides use the shapes of different arrays (shape algebra is not modelled)'
     for side, other in ((only_a, only_b), (only_b, only_a)):
         for x in side:
-            if x.kind == 'call' and x.args[0] not in MODELLED and x.args[0] not in PACKAGE_HEADS:
+            if x.kind == 'call' and x.args[0] not in MODELLED and x.args[0] not in PACKAGE_HEADS and x.args[0] not in STR_METHODS:
                 # an opaque head is decisive only when the other side applies the SAME head (to other arguments)
                 if not any(y.kind == 'call' and y.args[0] == x.args[0] and len(y.args[1]) == len(x.args[1])
                            for y in other):
